@@ -99,6 +99,18 @@ def run(chk):
             if rng.chance(2, 3):
                 case["caller"] = callers.caller(rng.pick([1000, 1001, 1002]), case["caller"]["proc"], False)
             runner.run_case(case)
+            if i % 10 == 3:
+                # the same process first elevated, then not (a privilege drop, or its pid re-used): elevation is per connection
+                proc = case["caller"]["proc"]
+                a = pipegen.gen_case(rng, callers, st, dest_label=rng.pick(["ws", "ga"]))
+                a["caller"] = callers.caller(0, proc, True)
+                runner.run_case(a)
+                b = pipegen.gen_case(rng, callers, st, dest_label=rng.pick(["ws", "ga"]))
+                b["caller"] = callers.caller(rng.pick([1000, 1001]), proc, False)
+                for ep in ("ws", "hostga"):
+                    b["env"][ep] = None          # no rule set at all: only the root-only guard stands between the caller and the host
+                chk.count("same_pid_elevated_then_not")
+                runner.run_case(b)
         runner.finish(oracle)
         chk.sample(runner.describe(runner.observations[0]))
     finally:
